@@ -4,6 +4,7 @@
 #include "fiber_cond.h"
 
 #include "fiber_manager.h"
+#include "fiber_verif.h"
 
 int fiber_cond_init(fiber_cond_t* cond) {
   assert(cond);
@@ -30,6 +31,7 @@ int fiber_cond_signal(fiber_cond_t* cond) {
 
   fiber_mutex_lock(&cond->internal_mutex);
   intptr_t new_val = atomic_fetch_sub(&cond->waiter_count, 1) - 1;
+  FIBER_VERIF_POINT(FV_COND_SIGNAL_MID, cond, 0);
   if (new_val >= 0) {
     fiber_manager_wake_from_mpsc_queue(fiber_manager_get(), &cond->waiters, 1);
   } else {
@@ -47,6 +49,7 @@ int fiber_cond_broadcast(fiber_cond_t* cond) {
   fiber_mutex_lock(&cond->internal_mutex);
   const intptr_t original =
       atomic_exchange_explicit(&cond->waiter_count, 0, memory_order_acquire);
+  FIBER_VERIF_POINT(FV_COND_SIGNAL_MID, cond, 0);
   if (original) {
     fiber_manager_wake_from_mpsc_queue(fiber_manager_get(), &cond->waiters,
                                        original);
